@@ -236,7 +236,7 @@ func runHistory(r *hutil.Rng, idx int) History {
 			h.Hash[hx(xid)] = md5pos(xid)
 			ev := Event{K: "select", Policy: p, Xid: hx(xid)}
 			var got gettylib.Session
-			class, detail := hutil.Guard(3*time.Second, func() error {
+			class, detail := hutil.Guard(6*time.Second, func() error {
 				got = loadbalance.Select(p, m, xid)
 				return nil
 			})
@@ -385,7 +385,13 @@ func answer(s *fakeSession, m message.RpcMessage) {
 }
 
 func waitWrites(s *fakeSession, want int, max time.Duration) {
-	dl := time.Now().Add(max)
+	// the first request (RegisterTM) is written by a goroutine of OnOpen: give it
+	// ample time even on a loaded machine, then wait briefly for anything further
+	dl := time.Now().Add(8 * time.Second)
+	for time.Now().Before(dl) && s.nWrites() < 1 {
+		time.Sleep(2 * time.Millisecond)
+	}
+	dl = time.Now().Add(max)
 	for time.Now().Before(dl) {
 		if s.nWrites() >= want {
 			break
